@@ -191,6 +191,21 @@ def hsvToRgbQ (h s v : Rat) : RgbQ :=
     match i % 6 with
     | 0 => ⟨v, t, p⟩ | 1 => ⟨q, v, p⟩ | 2 => ⟨p, v, t⟩ | 3 => ⟨p, q, v⟩ | 4 => ⟨t, p, v⟩ | _ => ⟨v, p, q⟩
 
+
+/-- rgb -> hsv over exact rationals: the case split of hsv.hpp (same thresholds, std::min / std::max as min / max) -/
+def absQ (x : Rat) : Rat := if x < 0 then -x else x
+def rgbToHsvQ (r g b : Rat) : Rat × Rat × Rat :=
+  let mn := min r (min g b); let mx := max r (max g b)
+  let diff := mx - mn
+  let sat := if mx < 1/10000 then 0 else diff / mx
+  let hue := if sat < 1/10000 then 0 else
+     let h := if absQ (r - mx) < 1/10000 then (g - b)/diff else if g ≥ mx then 2 + (b - r)/diff else 4 + (r - g)/diff
+     let h := h / 6
+     if h < 0 then h + 1 else h
+  (hue, sat, mx)
+/-- rgb -> hsv -> rgb over exact rationals -/
+def hsvRoundTripQ (r g b : Rat) : RgbQ := let (h, s, v) := rgbToHsvQ r g b; hsvToRgbQ h s v
+
 /-! ### Spec helpers -/
 def inUnit (x : Float32) : Bool := x.toFloat ≥ 0 && x.toFloat ≤ 1
 
